@@ -67,7 +67,8 @@ def run(r):
               "{omitted} U [-4,4] U {i64 boundaries}) as context variables (+ literal forms); a case is non-trivial when "
               "it is distinct and selects from a non-empty sequence")
     r.assumptions = ["sequences longer than 6 behave like the model predicts (proved for the model for every length)",
-                     "bounds outside i64 are rejected by i64::try_from before slicing"]
+                     "bounds outside i64 are rejected by i64::try_from before slicing",
+                     "one-shot iterators are subscripted with non-negative indexes only (an end-relative subscript has to count, i.e. consume, the iterator first; Python's generators are not subscriptable at all)"]
     r.regen_tables()
     r.lean_prove("MJ.Props.C09", "MJ/Audit/C09.lean", extra_targets=["drive_c09"])
     exe = r.cargo_build("c09")
